@@ -241,6 +241,35 @@ def run(prog, tier):
                 res.undecided('waiting-loop', inst, f.loc(n['id']), 'uncounted loop on the load path whose progress the rule cannot read [shape not read by the rule]', function=f.sig, expr='wait:' + f.name)
     res.info['waiting_loops'] = nwait
     res.minimum('uncounted loops on the load path', nwait, 1)
+    # ---- integer division on the load path: the divisor is tested against zero before (SIGFPE is not an exception)
+    ndiv = 0
+    for f in load:
+        if f.implicit:
+            continue
+        Rd = None
+        for n in f.all_nodes({'BinaryOperator', 'CompoundAssignOperator'}):
+            if n.get('op') not in ('/', '%', '/=', '%='):
+                continue
+            d = f.nodes[f.strip(n['ch'][1], 'all')]
+            if d.get('cv') is not None or n.get('tc') == 'f' or d.get('tc') == 'f' or f.nodes[f.strip(n['ch'][0], 'all')].get('tc') == 'f':
+                continue
+            Rd = Rd or Renderer(f)
+            D = indexsites.uncast(Rd.render(n['ch'][1]))
+            ndiv += 1
+            fa = [(l_, op_, r_) for l_, op_, r_, _x in indexsites.facts_at(f, Rd, n['id']) if D in (l_, r_)]
+            nz = any((l_ == D and ((op_ == '!=' and r_ == '0') or (op_ == '>' and re.match(r'^\d+$', r_)) or (op_ == '>=' and re.match(r'^[1-9]\d*$', r_)))) or
+                     (r_ == D and ((op_ == '!=' and l_ == '0') or (op_ == '<' and re.match(r'^\d+$', l_)))) for l_, op_, r_ in fa)
+            inst = 'integer division by %s in %s' % (D[-50:], f.qname.split('::')[-1])
+            if nz:
+                res.ok('zero-divisor', inst, f.loc(n['id']), 'the divisor is tested against zero before the division', function=f.sig, expr='div:' + D[-60:])
+            else:
+                zt = [x for x in indexsites.facts_at(f, Rd, n['id']) if x[1] in ('!=', '>') and x[2] == '0']
+                if zt:
+                    res.viol('zero-divisor', inst, f.loc(n['id']), 'the division is guarded by %s %s 0, not by a test of its divisor %s: a file in which only the divisor is zero stops the process with SIGFPE' %
+                             (zt[0][0], zt[0][1], D), function=f.sig, expr='div:' + D[-60:])
+                else:
+                    res.undecided('zero-divisor', inst, f.loc(n['id']), 'no test of the divisor against zero is visible before the division [no proof found]', function=f.sig, expr='div:' + D[-60:])
+    res.info['integer_divisions_on_load_path'] = ndiv
     # ---- checked-read --------------------------------------------------------------------------------
     rf = prog.fn('ezc3d::c3d::readFile', nparams=4)
     reads = [c for c in rf.calls() if c['callee']['name'] == 'read' and c['callee'].get('classq', '').startswith('std::basic_istream')]
